@@ -53,17 +53,17 @@ open Rie.SM
 
 theorem find_map_update (l : List Flight) (c : Nat) (f f' : Flight) (hf : l.find? (·.caller == c) = some f)
     (hc : f'.caller = c) :
-    (l.map fun g => if g.caller == f'.caller then f' else g).find? (·.caller == c) = some f' := by
+    (replaceFirst (·.caller == f'.caller) f' l).find? (·.caller == c) = some f' := by
   induction l with
   | nil => simp at hf
   | cons x xs ih =>
-    simp only [List.map_cons, List.find?_cons]
+    simp only [replaceFirst]
     by_cases hx : x.caller == c
     · have : (x.caller == f'.caller) = true := by rw [hc]; exact hx
       rw [if_pos this]
       simp [hc]
     · have hx' : (x.caller == f'.caller) = false := by rw [hc]; simpa using hx
-      simp only [hx', Bool.false_eq_true, ↓reduceIte, hx]
+      simp only [hx', Bool.false_eq_true, ↓reduceIte, List.find?_cons, hx]
       simp only [List.find?_cons, hx] at hf
       exact ih hf
 
